@@ -13,6 +13,7 @@ SPEC = {
         "Finished(Undetermined) + Ok; the status decoder pairs WIFEXITED/WEXITSTATUS and WIFSIGNALED/WTERMSIG on the "
         "word libc::waitpid wrote; under child_state=Finished the wait family reaches no OS or clock call; pid() and "
         "exit_status() are pure projections; the state cannot be forged from outside (field privacy, no Clone/Copy)."
+        " Also: pid() is Some exactly under Running and exit_status() exactly under Finished (both directions). Thorough tier, windows: stores to child_state, reported=recorded, a recorded status is returned as is, os_wait calls wait_handle(None) before it looks at the state."
     ),
     "not_decided": "that the kernel's status word is the child's real termination cause; exit-code values 0..255.",
     "trusted_base": ["rustc type checking / MIR construction", "POSIX waitpid(2) and the W* status macros (libc crate)",
